@@ -72,12 +72,15 @@ Print Assumptions C14_harness_mappers.
 
 (* the keys written by Node.to_dict and read by Node.from_dict in /repo (lifted
    from the source text by gen_facts.py on every run) are the keys of the model,
-   and the source's data_id test is [self._data_id != hash(self._data)];
+   the source's data_id test is [self._data_id != hash(self._data)], and
+   Node.to_dict is the statement sequence the model mirrors (dict literal; id
+   test; call_mapper; children added after the mapper; return);
    from_dict's optional "node_id" entry is never written by to_dict *)
 Theorem C14_source_keys :
   TO_DICT_KEYS = [k_data; k_data_id; k_children] /\
   FROM_DICT_KEYS = [k_data; k_data_id; k_node_id; k_children] /\
-  TO_DICT_ID_TEST_IS_NE_HASH = true.
+  TO_DICT_ID_TEST_IS_NE_HASH = true /\
+  TO_DICT_SKELETON = [0; 1; 2; 3; 4]%Z.
 Proof. exact source_keys_ok. Qed.
 Print Assumptions C14_source_keys.
 
@@ -199,6 +202,11 @@ Example C14_roundtrip_needs_inverse :
   tree_from_dict (dd_raw (fun _ => inl (I (-1) 0 0 true [] (DInt 0) None []))) 0
                  (to_dict_list sm_none [T 1 (ex_a (DInt 11)) []; T 2 (ex_b (DInt 22)) []]) = inr E_UNIQUE.
 Proof. exact ex_not_inverse. Qed.
+
+Example C14_dropping_mapper_loses_ids :
+  tree_from_dict (dd_raw ex_raw) 0 (to_dict_list (sm_of (SMnew [(1%Z, JStr [97%Z])] false)) [T 1 (ex_a (DInt 0)) []]) =
+  inl [T 1 (I (-1) 1 11 true [97%Z] (DInt 11) None []) []].
+Proof. exact ex_drop_loses_ids. Qed.
 
 Example C14_roundtrip_needs_sibuniq :
   tree_from_dict (dd_raw ex_raw) 0 (to_dict_list sm_none [T 1 (ex_a (DInt 11)) []; T 2 (ex_a (DInt 11)) []]) = inr E_UNIQUE.
